@@ -75,6 +75,8 @@ func TestVerifC16c(t *testing.T) {
 		c16cScenario("pipeline-tcp-c3-writers", tOpt{Kind: "pipeline-tcp", Callers: 3, MaxCq: 3, LazyQueue: 3, Srv: srvOpt{AnswerAll: true}}, d-1),
 		c16cScenario("tdc-tcp-c2-runt-frames", tOpt{Kind: "tdc-tcp", Callers: 2, Srv: srvOpt{Short: true, Reorder: true}, CtxMode: []int{1, 1}}, d),
 		c16cScenario("reuse-c1-seq2-runt-frames", tOpt{Kind: "reuse", Callers: 1, Seq: 2, Srv: srvOpt{Short: true}, CtxMode: []int{1}}, d),
+		c16cScenario("pipeline-tcp-c2-stall-in-frame", tOpt{Kind: "pipeline-tcp", Callers: 2, MaxCq: 2, LazyQueue: 2, IdleTimeout: 2 * time.Second, Srv: srvOpt{AnswerAll: true, SplitStall: 3 * time.Second}, CtxMode: []int{1, 0}}, d-1),
+		c16cScenario("tdc-tcp-c2-stall-in-frame", tOpt{Kind: "tdc-tcp", Callers: 2, IdleTimeout: 2 * time.Second, Srv: srvOpt{Reorder: true, SplitStall: 3 * time.Second}}, d),
 		c16cScenario("reuse-c2-seq2-writers", tOpt{Kind: "reuse", Callers: 2, Seq: 2, Srv: srvOpt{AnswerAll: true}}, d-1),
 	}
 	vr.RunScenarios("C16", scs)
